@@ -159,6 +159,8 @@ def make_input(I: Interp, name, kind):
         return SymInt(t)
     if kind == "bool":
         return SymBool(z3.Const(name, Bool))
+    if kind == "real":
+        return SymReal(z3.Const(name, smt.Real))
     if kind == "str":
         return SymStr(z3.Const(name, Str))
     if kind == "seq":
@@ -633,15 +635,15 @@ def verify_function(fc: FunctionContract, specs, rlimit=20_000_000, hooks=None):
         for v in inputs:
             if isinstance(v, (SymObj, SymDict, PyList, PyDict, SymSet, SymNode)):
                 I.track(v)
+        for tpath, cfn in (fc.assume or {}).items():
+            install_assumed(I, loader.unwrap(loader.resolve(tpath)), cfn)
+        if fc.setup:
+            fc.setup(I, inputs)
         spec_inputs = list(inputs)
         if star is not None:
             spec_inputs.append(SymSeq(star, "tuple"))
         if dstar is not None:
             spec_inputs.append(dstar)
-        for tpath, cfn in (fc.assume or {}).items():
-            install_assumed(I, loader.unwrap(loader.resolve(tpath)), cfn)
-        if fc.setup:
-            fc.setup(I, inputs)
         # precondition
         pre_pcs = []
         if fc.requires is not None:
